@@ -342,6 +342,9 @@ def gen_program(rng, cfg, n_ops=None, weights=None):
     if shape == 'blog':
         classes = [0, 1, 2, 3]
         keypool = {0: [1, 2], 1: [1, 2, 3], 2: [1, 2], 3: [1, 2]}
+        if rng.random() < 0.3:
+            # a falsy primary key is a key like any other
+            keypool = {0: [0, 2], 1: [0, 2, 3], 2: [1, 0], 3: [1, 2]}
     elif shape == 'own':
         classes = [0, 1]
         keypool = {0: [1, 2], 1: [1, 2, 3]}
